@@ -222,6 +222,16 @@ def case_strategy(draw, tier):
             c['name'] += '_'
         names.add(c['name'])
         cols.append(c)
+    if len(cols) >= 2 and draw(st.integers(0, 5)) == 0:
+        # CSVW names are case-sensitive: two columns may differ only in case
+        a, b = draw(st.sampled_from([('ID', 'id'), ('Name', 'name'),
+                                     ('é', 'É'), ('x', 'X')]))
+        try:
+            a.encode(encoding), b.encode(encoding)
+            if a not in names and b not in names:
+                cols[0]['name'], cols[-1]['name'] = a, b
+        except UnicodeEncodeError:
+            pass
     header = draw(st.sampled_from(['present', 'present', 'present',
                                    'absent-titles', 'absent-no-titles']))
     return {
